@@ -17,6 +17,8 @@ unsafe impl<T: Send> Sync for Slot<T> {}
 pub struct JoinHandle<T> {
     slot: Arc<Slot<T>>,
     index: usize,
+    /// outcome decided by the spawn-override hook (see `model::set_spawn_override`)
+    overridden: Option<Result<T, JoinError>>,
 }
 
 impl<T> Unpin for JoinHandle<T> {}
@@ -50,7 +52,10 @@ impl std::error::Error for JoinError {}
 
 impl<T> Future for JoinHandle<T> {
     type Output = Result<T, JoinError>;
-    fn poll(self: Pin<&mut Self>, _cx: &mut Context<'_>) -> Poll<Self::Output> {
+    fn poll(mut self: Pin<&mut Self>, _cx: &mut Context<'_>) -> Poll<Self::Output> {
+        if let Some(r) = self.overridden.take() {
+            return Poll::Ready(r);
+        }
         if let Some(v) = unsafe { (*self.slot.0.get()).take() } {
             return Poll::Ready(Ok(v));
         }
@@ -67,13 +72,24 @@ where
     F: Future + Send + 'static,
     F::Output: Send + 'static,
 {
+    if let Some(hook) = model::spawn_override() {
+        std::mem::forget(future);
+        let overridden = match hook() {
+            Some(b) => match b.downcast::<F::Output>() {
+                Ok(v) => Ok(*v),
+                Err(_) => panic!("model: spawn override returned a value of the wrong type"),
+            },
+            None => Err(JoinError(())),
+        };
+        return JoinHandle { slot: Arc::new(Slot(UnsafeCell::new(None))), index: usize::MAX, overridden: Some(overridden) };
+    }
     let slot = Arc::new(Slot(UnsafeCell::new(None)));
     let s2 = slot.clone();
     let index = model::add_task(Box::pin(async move {
         let v = future.await;
         unsafe { *s2.0.get() = Some(v) };
     }));
-    JoinHandle { slot, index }
+    JoinHandle { slot, index, overridden: None }
 }
 
 pub fn block_in_place<F, R>(f: F) -> R
